@@ -3364,10 +3364,14 @@ func (t *transport) RoundTrip(hc *HostClient, req *Request, resp *Response) (ret
 				return nil
 			}
 			hc.ReleaseReader(br)
+			// A body stream that was closed before its end leaves unread response
+			// bytes on the connection; such a connection must not be reused.
+			unread := false
 			if r, ok := rbs.(*requestStream); ok {
+				unread = r.unread()
 				releaseRequestStream(r)
 			}
-			if closeConn || resp.ConnectionClose() || wErr != nil {
+			if closeConn || resp.ConnectionClose() || wErr != nil || unread {
 				hc.CloseConn(cc)
 			} else {
 				hc.ReleaseConn(cc)
